@@ -8,17 +8,17 @@ From Coq Require Import ZArith List Bool.
 Import ListNotations.
 Local Open Scope Z_scope.
 
-(* coap_queue_t without next/t: the per-message back-off state.  n_uid is a ghost field (the
+(* coap_queue_t without next/t: the per-message back-off state.  qn_uid is a ghost field (the
    position of the message in the order of submission) used to tell messages apart in the
    theorems; the code never looks at it. *)
 Record sq_node := sq_mk_node {
-  n_uid : Z;
-  n_sess : Z;           (* session (identity) *)
-  n_mid : Z;            (* id *)
-  n_cnt : Z;            (* retransmit_cnt *)
-  n_timeout : Z;        (* timeout: the randomised initial timeout in ticks *)
-  n_max : Z;            (* session->max_retransmit *)
-  n_bytes : list Z      (* the encoded PDU *)
+  qn_uid : Z;
+  qn_sess : Z;           (* session (identity) *)
+  qn_mid : Z;            (* id *)
+  qn_cnt : Z;            (* retransmit_cnt *)
+  qn_timeout : Z;        (* timeout: the randomised initial timeout in ticks *)
+  qn_max : Z;            (* session->max_retransmit *)
+  qn_bytes : list Z      (* the encoded PDU *)
 }.
 
 Definition sq_entry : Type := Z * sq_node.      (* (t, node) *)
@@ -57,7 +57,7 @@ Definition sq_pop (q : sq_queue) : option (sq_entry * sq_queue) :=
   end.
 
 (* coap_remove_from_queue(&queue, session, id, &node): first node of that session with that id *)
-Definition sq_match (s m : Z) (n : sq_node) : bool := (n_sess n =? s) && (n_mid n =? m).
+Definition sq_match (s m : Z) (n : sq_node) : bool := (qn_sess n =? s) && (qn_mid n =? m).
 
 Fixpoint sq_remove (q : sq_queue) (s m : Z) : option (sq_entry * sq_queue) :=
   match q with
